@@ -70,323 +70,329 @@ def run(ck):
     R5 = ck.rule('R13.5', "malformed input raises: leftover text, wrong number of endpoints, "
                  "wrong sequence lengths, time zones, unsupported types", 'M0', 8)
 
-    orderings = weak_orderings3()
-    ck.extra['exhaustive_parts'] = ['R13.1: 3 interval classes x all 13 weak orderings of (low, item, high) -- a complete abstraction for functions that touch their arguments only through comparisons']
-    ck.need(R1, len(orderings) == 13, "internal: ordering enumeration")
+    with ck.section('R13.1'):
+        orderings = weak_orderings3()
+        ck.extra['exhaustive_parts'] = ['R13.1: 3 interval classes x all 13 weak orderings of (low, item, high) -- a complete abstraction for functions that touch their arguments only through comparisons']
+        ck.need(R1, len(orderings) == 13, "internal: ordering enumeration")
 
-    # ------------------------------------------------------------------ R13.1
-    for cname_, (kind, closed, gen, cseq, cstr) in CLASSES.items():
-        ci = prog.cls(f"{TI}:{cname_}")
-        try:
-            flag = fold(prog, mod, prog.class_value(ci, '_RCLOSED_INTERVAL'))
-        except (Unfoldable, AttributeError, TypeError):
-            flag = None
-        ck.ob(R2, f"{ci.qual} :: _RCLOSED_INTERVAL", flag is closed,
-              f"_RCLOSED_INTERVAL = {flag} (documented: {closed})", None,
-              f"{mod.path}:{ci.node.lineno}")
-        fname = '_cmp_closed' if flag else '_cmp_open'
-        fi = prog.resolve_method(ci, fname)
-        ck.need(R1, fi is not None, f"{ci.qual} has no {fname}")
-        ck.functions_analysed.add(fi.fid)
-        params = [a.arg for a in fi.node.args.args]
-        if 'staticmethod' not in fi.decorators and params and params[0] in ('self', 'cls'):
-            params = params[1:]
-        ck.need(R1, len(params) == 3, f"{fi.fid}: expected (low, item, high) parameters")
-        for rank, (lo, it, hi) in sorted(orderings.items()):
-            interp = Interp(R1, {params[0]: lo, params[1]: it, params[2]: hi}, 'ordering')
-            got = interp.run(fi.node.body)
-            ck.abstract_cases += 1
-            want = RULES[kind](lo, it, hi)
-            desc = _describe(rank)
-            ck.ob(R1, f"{ci.qual} via {fi.fid} :: ordering {desc}", bool(got) == want and got is not None,
-                  f"{kind} rule ({RULE_TEXT[kind]}): {desc} -> {'in' if want else 'out'}; "
-                  f"code says {'in' if got else 'out'}", fi, fi.node)
-
-    # ------------------------------------------------------------------ R13.1b
-    cmpf = base.methods.get('_cmp')
-    ck.need(R1b, cmpf is not None, "_Interval._cmp not found")
-    rets = [n for n in own_nodes(cmpf.node) if isinstance(n, ast.Return)]
-    ok = False
-    g = ck.cfg(cmpf.fid, 'M0')
-    if len(rets) == 1 and isinstance(rets[0].value, ast.Call) and isinstance(rets[0].value.func, ast.IfExp):
-        f = rets[0].value.func
-        t = norm(f.test)
-        if t == 'self._RCLOSED_INTERVAL':
-            ok = norm(f.body) == 'self._cmp_closed' and norm(f.orelse) == 'self._cmp_open'
-        elif t == 'not self._RCLOSED_INTERVAL':
-            ok = norm(f.orelse) == 'self._cmp_closed' and norm(f.body) == 'self._cmp_open'
-        ok = ok and [norm(a) for a in rets[0].value.args] == ['*args']
-    else:
-        # if/else statement form
-        rn = return_nodes(g)
-        closed_r = [r for r in rn if g.has_guard(r, 'self._RCLOSED_INTERVAL', True)]
-        open_r = [r for r in rn if g.has_guard(r, 'self._RCLOSED_INTERVAL', False)]
-        ok = len(rn) == 2 and len(closed_r) == 1 and len(open_r) == 1 and \
-            norm(closed_r[0].ast.value).startswith('self._cmp_closed(') and \
-            norm(open_r[0].ast.value).startswith('self._cmp_open(')
-    ck.ob(R1b, cmpf.fid, ok, "closed rule iff _RCLOSED_INTERVAL, else open rule; arguments passed "
-          "through" if ok else "_cmp does not select _cmp_closed/_cmp_open by _RCLOSED_INTERVAL",
-          cmpf, cmpf.node)
-    cont = base.methods.get('__contains__')
-    ck.need(R1b, cont is not None, "_Interval.__contains__ not found")
-    item = cont.node.args.args[1].arg
-    ok = False
-    why = "unrecognised shape"
-    for n in own_nodes(cont.node):
-        if isinstance(n, ast.Call) and call_name(n) == 'any' and n.args and \
-                isinstance(n.args[0], ast.GeneratorExp):
-            ge = n.args[0]
-            gen0 = ge.generators[0]
-            if norm(gen0.iter) == 'self._interval' and isinstance(gen0.target, ast.Tuple) and \
-                    len(gen0.target.elts) == 2 and isinstance(ge.elt, ast.Call) and \
-                    norm(ge.elt.func) == 'self._cmp':
-                lo, hi = [norm(e) for e in gen0.target.elts]
-                args = [norm(a) for a in ge.elt.args]
-                ok = args == [lo, item, hi] and not gen0.ifs
-                why = f"self._cmp({', '.join(args)}) for {lo}, {hi} in self._interval"
-    ck.ob(R1b, cont.fid, ok, why if ok else f"__contains__ is not any(self._cmp(low, item, high) "
-          f"for low, high in self._interval): {why}", cont, cont.node)
-    # every public subclass inherits these two
-    for cname_ in CLASSES:
-        ci = prog.cls(f"{TI}:{cname_}")
-        for m in ('_cmp', '__contains__'):
-            r = prog.resolve_method(ci, m)
-            if r is None or r.cls is not base:
-                ck.ob(R1b, f"{ci.qual}.{m}", False, f"{m} is overridden in {r.fid if r else None}; "
-                      f"the dispatch rule no longer applies", r, r.node if r else None)
-
-    # ------------------------------------------------------------------ R13.2
-    for cname_, (kind, closed, gen, cseq, cstr) in CLASSES.items():
-        ci = prog.cls(f"{TI}:{cname_}")
-        b = ci.node.bases[0] if ci.node.bases else None
-        garg = norm(b.slice) if isinstance(b, ast.Subscript) else None
-        for attr, want in (('_convert_seq', cseq), ('_convert_str', cstr)):
-            v = prog.class_value(ci, attr)
-            got = norm(v) if v is not None else None
-            fi = prog.funcs.get(f"{TI}:{got}") if got else None
-            ann = norm(fi.node.returns) if fi is not None and fi.node.returns is not None else None
-            ok = got == want and ann == gen and garg == gen
-            ck.ob(R2, f"{ci.qual}.{attr}", ok,
-                  f"{attr} = {got} -> {ann}; Generic argument {garg}" +
-                  ('' if ok else f" (expected {want} -> {gen})"), None,
+        # ------------------------------------------------------------------ R13.1
+        for cname_, (kind, closed, gen, cseq, cstr) in CLASSES.items():
+            ci = prog.cls(f"{TI}:{cname_}")
+            try:
+                flag = fold(prog, mod, prog.class_value(ci, '_RCLOSED_INTERVAL'))
+            except (Unfoldable, AttributeError, TypeError):
+                flag = None
+            ck.ob(R2, f"{ci.qual} :: _RCLOSED_INTERVAL", flag is closed,
+                  f"_RCLOSED_INTERVAL = {flag} (documented: {closed})", None,
                   f"{mod.path}:{ci.node.lineno}")
-    dv = prog.class_value(prog.cls(f"{TI}:DateInterval"), '_str')
-    ck.ob(R2, f"{TI}:DateInterval._str", dv is not None and norm(dv) == 'date_to_string',
-          f"_str = {norm(dv) if dv is not None else None}", None, f"{mod.path}:1")
-    ev = prog.class_value(base, '_export')
-    ck.ob(R2, f"{TI}:_Interval._export", ev is not None and norm(ev) == 'export_dt',
-          f"_export = {norm(ev) if ev is not None else None}", None, f"{mod.path}:1")
+            fname = '_cmp_closed' if flag else '_cmp_open'
+            fi = prog.resolve_method(ci, fname)
+            ck.need(R1, fi is not None, f"{ci.qual} has no {fname}")
+            ck.functions_analysed.add(fi.fid)
+            params = [a.arg for a in fi.node.args.args]
+            if 'staticmethod' not in fi.decorators and params and params[0] in ('self', 'cls'):
+                params = params[1:]
+            ck.need(R1, len(params) == 3, f"{fi.fid}: expected (low, item, high) parameters")
+            for rank, (lo, it, hi) in sorted(orderings.items()):
+                interp = Interp(R1, {params[0]: lo, params[1]: it, params[2]: hi}, 'ordering')
+                got = interp.run(fi.node.body)
+                ck.abstract_cases += 1
+                want = RULES[kind](lo, it, hi)
+                desc = _describe(rank)
+                ck.ob(R1, f"{ci.qual} via {fi.fid} :: ordering {desc}", bool(got) == want and got is not None,
+                      f"{kind} rule ({RULE_TEXT[kind]}): {desc} -> {'in' if want else 'out'}; "
+                      f"code says {'in' if got else 'out'}", fi, fi.node)
 
-    # ------------------------------------------------------------------ R13.3
-    init = base.methods['__init__']
-    own(ck, R3, '_interval', {init.fid: 'constructor (sorted normal form)'},
-        ignore=lambda fi, tgt, st: fi is not None and norm(tgt.value) == 'self'
-        and (prog.enclosing_class(fi) is None or base not in prog.enclosing_class(fi).mro))
-    gi = ck.cfg(init.fid, 'M0')
-    ws = nodes_writing_attr(gi, '_interval')
-    vals = [w.ast.value for w in ws if isinstance(w.ast, ast.Assign)]
-    ok = bool(vals) and all(isinstance(v, ast.Call) and call_name(v) == 'sorted' and not v.keywords
-                            for v in vals)
-    ck.ob(R3, f"{init.fid} :: sorted", ok, "self._interval = sorted(parsed ranges)" if ok else
-          "the stored ranges are not sorted (as_list/as_string would depend on input order)",
-          init, ws[0].ast if ws else init.node)
-    al = base.methods.get('as_list')
-    ck.need(R3, al is not None, "_Interval.as_list not found")
-    ok = False
-    for n in own_nodes(al.node):
-        if isinstance(n, ast.ListComp) and isinstance(n.elt, ast.List) and len(n.elt.elts) == 2:
-            gen0 = n.generators[0]
-            if norm(gen0.iter) == 'self._interval' and isinstance(gen0.target, ast.Tuple):
-                a, b_ = [norm(e) for e in gen0.target.elts]
-                e0, e1 = n.elt.elts
-                ok = isinstance(e0, ast.Call) and isinstance(e1, ast.Call) and \
-                    norm(e0.func) == norm(e1.func) and [norm(x) for x in e0.args] == [a] and \
-                    [norm(x) for x in e1.args] == [b_] and not gen0.ifs
-    ck.ob(R3, al.fid, ok, "[[export(start), export(stop)] for start, stop in self._interval]"
-          if ok else "as_list does not export every stored range as [export(start), export(stop)] "
-          "in stored order", al, al.node)
-    try:
-        dt_attrs = fold(prog, mod, ast.Name(id='_DT_ATTRS', ctx=ast.Load()))
-    except Unfoldable as err:
-        raise AnalysisError(R3, f"_DT_ATTRS not foldable: {err}") from None
-    ck.ob(R3, f"{TI}:_DT_ATTRS", list(dt_attrs) == DT_ORDER,
-          f"_DT_ATTRS = {dt_attrs}" + ('' if list(dt_attrs) == DT_ORDER else
-                                        f" (constructor order is {DT_ORDER})"), None, f"{mod.path}:1")
-    attrs_node = prog.lookup(mod, '_ATTRS')
-    ck.need(R3, attrs_node is not None and attrs_node[0] == 'value' and isinstance(attrs_node[1], ast.Dict),
-            "_ATTRS dict not found")
-    exp_len = {}
-    for k, v in zip(attrs_node[1].keys, attrs_node[1].values):
+    with ck.section('R13.1b'):
+        # ------------------------------------------------------------------ R13.1b
+        cmpf = base.methods.get('_cmp')
+        ck.need(R1b, cmpf is not None, "_Interval._cmp not found")
+        rets = [n for n in own_nodes(cmpf.node) if isinstance(n, ast.Return)]
+        ok = False
+        g = ck.cfg(cmpf.fid, 'M0')
+        if len(rets) == 1 and isinstance(rets[0].value, ast.Call) and isinstance(rets[0].value.func, ast.IfExp):
+            f = rets[0].value.func
+            t = norm(f.test)
+            if t == 'self._RCLOSED_INTERVAL':
+                ok = norm(f.body) == 'self._cmp_closed' and norm(f.orelse) == 'self._cmp_open'
+            elif t == 'not self._RCLOSED_INTERVAL':
+                ok = norm(f.orelse) == 'self._cmp_closed' and norm(f.body) == 'self._cmp_open'
+            ok = ok and [norm(a) for a in rets[0].value.args] == ['*args']
+        else:
+            # if/else statement form
+            rn = return_nodes(g)
+            closed_r = [r for r in rn if g.has_guard(r, 'self._RCLOSED_INTERVAL', True)]
+            open_r = [r for r in rn if g.has_guard(r, 'self._RCLOSED_INTERVAL', False)]
+            ok = len(rn) == 2 and len(closed_r) == 1 and len(open_r) == 1 and \
+                norm(closed_r[0].ast.value).startswith('self._cmp_closed(') and \
+                norm(open_r[0].ast.value).startswith('self._cmp_open(')
+        ck.ob(R1b, cmpf.fid, ok, "closed rule iff _RCLOSED_INTERVAL, else open rule; arguments passed "
+              "through" if ok else "_cmp does not select _cmp_closed/_cmp_open by _RCLOSED_INTERVAL",
+              cmpf, cmpf.node)
+        cont = base.methods.get('__contains__')
+        ck.need(R1b, cont is not None, "_Interval.__contains__ not found")
+        item = cont.node.args.args[1].arg
+        ok = False
+        why = "unrecognised shape"
+        for n in own_nodes(cont.node):
+            if isinstance(n, ast.Call) and call_name(n) == 'any' and n.args and \
+                    isinstance(n.args[0], ast.GeneratorExp):
+                ge = n.args[0]
+                gen0 = ge.generators[0]
+                if norm(gen0.iter) == 'self._interval' and isinstance(gen0.target, ast.Tuple) and \
+                        len(gen0.target.elts) == 2 and isinstance(ge.elt, ast.Call) and \
+                        norm(ge.elt.func) == 'self._cmp':
+                    lo, hi = [norm(e) for e in gen0.target.elts]
+                    args = [norm(a) for a in ge.elt.args]
+                    ok = args == [lo, item, hi] and not gen0.ifs
+                    why = f"self._cmp({', '.join(args)}) for {lo}, {hi} in self._interval"
+        ck.ob(R1b, cont.fid, ok, why if ok else f"__contains__ is not any(self._cmp(low, item, high) "
+              f"for low, high in self._interval): {why}", cont, cont.node)
+        # every public subclass inherits these two
+        for cname_ in CLASSES:
+            ci = prog.cls(f"{TI}:{cname_}")
+            for m in ('_cmp', '__contains__'):
+                r = prog.resolve_method(ci, m)
+                if r is None or r.cls is not base:
+                    ck.ob(R1b, f"{ci.qual}.{m}", False, f"{m} is overridden in {r.fid if r else None}; "
+                          f"the dispatch rule no longer applies", r, r.node if r else None)
+
+    with ck.section('R13.2'):
+        # ------------------------------------------------------------------ R13.2
+        for cname_, (kind, closed, gen, cseq, cstr) in CLASSES.items():
+            ci = prog.cls(f"{TI}:{cname_}")
+            b = ci.node.bases[0] if ci.node.bases else None
+            garg = norm(b.slice) if isinstance(b, ast.Subscript) else None
+            for attr, want in (('_convert_seq', cseq), ('_convert_str', cstr)):
+                v = prog.class_value(ci, attr)
+                got = norm(v) if v is not None else None
+                fi = prog.funcs.get(f"{TI}:{got}") if got else None
+                ann = norm(fi.node.returns) if fi is not None and fi.node.returns is not None else None
+                ok = got == want and ann == gen and garg == gen
+                ck.ob(R2, f"{ci.qual}.{attr}", ok,
+                      f"{attr} = {got} -> {ann}; Generic argument {garg}" +
+                      ('' if ok else f" (expected {want} -> {gen})"), None,
+                      f"{mod.path}:{ci.node.lineno}")
+        dv = prog.class_value(prog.cls(f"{TI}:DateInterval"), '_str')
+        ck.ob(R2, f"{TI}:DateInterval._str", dv is not None and norm(dv) == 'date_to_string',
+              f"_str = {norm(dv) if dv is not None else None}", None, f"{mod.path}:1")
+        ev = prog.class_value(base, '_export')
+        ck.ob(R2, f"{TI}:_Interval._export", ev is not None and norm(ev) == 'export_dt',
+              f"_export = {norm(ev) if ev is not None else None}", None, f"{mod.path}:1")
+
+    with ck.section('R13.3'):
+        # ------------------------------------------------------------------ R13.3
+        init = base.methods['__init__']
+        own(ck, R3, '_interval', {init.fid: 'constructor (sorted normal form)'},
+            ignore=lambda fi, tgt, st: fi is not None and norm(tgt.value) == 'self'
+            and (prog.enclosing_class(fi) is None or base not in prog.enclosing_class(fi).mro))
+        gi = ck.cfg(init.fid, 'M0')
+        ws = nodes_writing_attr(gi, '_interval')
+        vals = [w.ast.value for w in ws if isinstance(w.ast, ast.Assign)]
+        ok = bool(vals) and all(isinstance(v, ast.Call) and call_name(v) == 'sorted' and not v.keywords
+                                for v in vals)
+        ck.ob(R3, f"{init.fid} :: sorted", ok, "self._interval = sorted(parsed ranges)" if ok else
+              "the stored ranges are not sorted (as_list/as_string would depend on input order)",
+              init, ws[0].ast if ws else init.node)
+        al = base.methods.get('as_list')
+        ck.need(R3, al is not None, "_Interval.as_list not found")
+        ok = False
+        for n in own_nodes(al.node):
+            if isinstance(n, ast.ListComp) and isinstance(n.elt, ast.List) and len(n.elt.elts) == 2:
+                gen0 = n.generators[0]
+                if norm(gen0.iter) == 'self._interval' and isinstance(gen0.target, ast.Tuple):
+                    a, b_ = [norm(e) for e in gen0.target.elts]
+                    e0, e1 = n.elt.elts
+                    ok = isinstance(e0, ast.Call) and isinstance(e1, ast.Call) and \
+                        norm(e0.func) == norm(e1.func) and [norm(x) for x in e0.args] == [a] and \
+                        [norm(x) for x in e1.args] == [b_] and not gen0.ifs
+        ck.ob(R3, al.fid, ok, "[[export(start), export(stop)] for start, stop in self._interval]"
+              if ok else "as_list does not export every stored range as [export(start), export(stop)] "
+              "in stored order", al, al.node)
         try:
-            exp_len[norm(k)] = list(fold(prog, mod, v))
+            dt_attrs = fold(prog, mod, ast.Name(id='_DT_ATTRS', ctx=ast.Load()))
         except Unfoldable as err:
-            raise AnalysisError(R3, f"_ATTRS[{norm(k)}] not foldable: {err}") from None
-    want_attrs = {'dt.time': DT_ORDER[3:], 'dt.date': DT_ORDER[1:3], 'dt.datetime': DT_ORDER}
-    for k, w in want_attrs.items():
-        ck.ob(R3, f"{TI}:_ATTRS[{k}]", exp_len.get(k) == w,
-              f"exported attributes {exp_len.get(k)}" + ('' if exp_len.get(k) == w else f" (expected {w})"),
-              None, f"{mod.path}:{attrs_node[1].lineno}")
-    # maximal accepted lengths of the sequence converters
-    lens = {}
-    for fname, key in (('convert_time_seq', 'dt.time'), ('convert_date_seq', 'dt.date'),
-                       ('convert_datetime_seq', 'dt.datetime')):
-        fi = prog.func(f"{TI}:{fname}")
-        g = ck.cfg(fi.fid, 'M0')
-        p = fi.node.args.args[0].arg
-        lo = hi = None
-        raised = False
-        for n in g.nodes:
-            if n.kind == 'test':
-                t = n.ast
-                neg = False
-                while isinstance(t, ast.UnaryOp) and isinstance(t.op, ast.Not):
-                    t = t.operand
-                    neg = not neg
-                if isinstance(t, ast.Compare) and f'len({p})' in norm(t):
-                    if len(t.ops) == 2 and norm(t.comparators[0]) == f'len({p})' and neg and \
-                            all(isinstance(o, ast.LtE) for o in t.ops):
-                        lo, hi = fold(prog, mod, t.left), fold(prog, mod, t.comparators[1])
-                    elif len(t.ops) == 1 and isinstance(t.ops[0], ast.NotEq) and not neg:
-                        lo = hi = fold(prog, mod, t.comparators[0])
-                    elif len(t.ops) == 1 and isinstance(t.ops[0], ast.Eq) and neg:
-                        lo = hi = fold(prog, mod, t.comparators[0])
-                    # the true branch must raise
-                    for s, lab in g.succ[n.id]:
-                        if lab == 'true':
-                            br = g.nodes[s]
-                            nxt = [g.nodes[x] for x, _ in g.succ[br.id]]
-                            raised = any(isinstance(x.ast, ast.Raise) for x in nxt)
-        lens[key] = (lo, hi)
-        ok = hi == len(exp_len.get(key, [])) and raised
-        ck.ob(R3, f"{fi.fid} :: accepted lengths", ok,
-              f"accepts {lo}..{hi} integers, the export has {len(exp_len.get(key, []))}" +
-              ('' if raised else '; a wrong length does not raise'), fi, fi.node)
-        # constructor call passes the sequence positionally
+            raise AnalysisError(R3, f"_DT_ATTRS not foldable: {err}") from None
+        ck.ob(R3, f"{TI}:_DT_ATTRS", list(dt_attrs) == DT_ORDER,
+              f"_DT_ATTRS = {dt_attrs}" + ('' if list(dt_attrs) == DT_ORDER else
+                                            f" (constructor order is {DT_ORDER})"), None, f"{mod.path}:1")
+        attrs_node = prog.lookup(mod, '_ATTRS')
+        ck.need(R3, attrs_node is not None and attrs_node[0] == 'value' and isinstance(attrs_node[1], ast.Dict),
+                "_ATTRS dict not found")
+        exp_len = {}
+        for k, v in zip(attrs_node[1].keys, attrs_node[1].values):
+            try:
+                exp_len[norm(k)] = list(fold(prog, mod, v))
+            except Unfoldable as err:
+                raise AnalysisError(R3, f"_ATTRS[{norm(k)}] not foldable: {err}") from None
+        want_attrs = {'dt.time': DT_ORDER[3:], 'dt.date': DT_ORDER[1:3], 'dt.datetime': DT_ORDER}
+        for k, w in want_attrs.items():
+            ck.ob(R3, f"{TI}:_ATTRS[{k}]", exp_len.get(k) == w,
+                  f"exported attributes {exp_len.get(k)}" + ('' if exp_len.get(k) == w else f" (expected {w})"),
+                  None, f"{mod.path}:{attrs_node[1].lineno}")
+        # maximal accepted lengths of the sequence converters
+        lens = {}
+        for fname, key in (('convert_time_seq', 'dt.time'), ('convert_date_seq', 'dt.date'),
+                           ('convert_datetime_seq', 'dt.datetime')):
+            fi = prog.func(f"{TI}:{fname}")
+            g = ck.cfg(fi.fid, 'M0')
+            p = fi.node.args.args[0].arg
+            lo = hi = None
+            raised = False
+            for n in g.nodes:
+                if n.kind == 'test':
+                    t = n.ast
+                    neg = False
+                    while isinstance(t, ast.UnaryOp) and isinstance(t.op, ast.Not):
+                        t = t.operand
+                        neg = not neg
+                    if isinstance(t, ast.Compare) and f'len({p})' in norm(t):
+                        if len(t.ops) == 2 and norm(t.comparators[0]) == f'len({p})' and neg and \
+                                all(isinstance(o, ast.LtE) for o in t.ops):
+                            lo, hi = fold(prog, mod, t.left), fold(prog, mod, t.comparators[1])
+                        elif len(t.ops) == 1 and isinstance(t.ops[0], ast.NotEq) and not neg:
+                            lo = hi = fold(prog, mod, t.comparators[0])
+                        elif len(t.ops) == 1 and isinstance(t.ops[0], ast.Eq) and neg:
+                            lo = hi = fold(prog, mod, t.comparators[0])
+                        # the true branch must raise
+                        for s, lab in g.succ[n.id]:
+                            if lab == 'true':
+                                br = g.nodes[s]
+                                nxt = [g.nodes[x] for x, _ in g.succ[br.id]]
+                                raised = any(isinstance(x.ast, ast.Raise) for x in nxt)
+            lens[key] = (lo, hi)
+            ok = hi == len(exp_len.get(key, [])) and raised
+            ck.ob(R3, f"{fi.fid} :: accepted lengths", ok,
+                  f"accepts {lo}..{hi} integers, the export has {len(exp_len.get(key, []))}" +
+                  ('' if raised else '; a wrong length does not raise'), fi, fi.node)
+            # constructor call passes the sequence positionally
+            rn = return_nodes(g)
+            okc = bool(rn) and all(isinstance(r.ast.value, ast.Call) and norm(r.ast.value.func) == key
+                                   and any(isinstance(a, ast.Starred) and norm(a.value) == p
+                                           for a in r.ast.value.args) for r in rn)
+            if key == 'dt.date':
+                okc = okc and all(norm(r.ast.value.args[0]) == '_DUMMY_YEAR' for r in rn)
+            ck.ob(R5, f"{fi.fid} :: constructor", okc,
+                  f"returns {key}(*{p})" if okc else f"does not build {key} from the positional items",
+                  fi, rn[0].ast if rn else fi.node)
+        try:
+            dy = fold(prog, mod, ast.Name(id='_DUMMY_YEAR', ctx=ast.Load()))
+        except Unfoldable:
+            dy = None
+        leap = isinstance(dy, int) and dy % 4 == 0 and (dy % 100 != 0 or dy % 400 == 0) and 1 <= dy <= 9999
+        ck.ob(R3, f"{TI}:_DUMMY_YEAR", leap, f"_DUMMY_YEAR = {dy} "
+              f"({'leap year: Feb 29 representable' if leap else 'NOT a leap year'})", None, f"{mod.path}:1")
+
+    with ck.section('R13.4'):
+        # ------------------------------------------------------------------ R13.4
+        try:
+            seps = fold(prog, mod, ast.Name(id='_RANGE_SEPARATORS', ctx=ast.Load()))
+            delim = fold(prog, mod, ast.Name(id='_DELIMITER', ctx=ast.Load()))
+            legacy = fold(prog, mod, ast.Name(id='_DELIMITER_LEGACY', ctx=ast.Load()))
+        except Unfoldable as err:
+            raise AnalysisError(R4, f"separator constants not foldable: {err}") from None
+        rs = base.methods.get('_range_string')
+        ck.need(R4, rs is not None, "_Interval._range_string not found")
+        g = ck.cfg(rs.fid, 'M0')
         rn = return_nodes(g)
-        okc = bool(rn) and all(isinstance(r.ast.value, ast.Call) and norm(r.ast.value.func) == key
-                               and any(isinstance(a, ast.Starred) and norm(a.value) == p
-                                       for a in r.ast.value.args) for r in rn)
-        if key == 'dt.date':
-            okc = okc and all(norm(r.ast.value.args[0]) == '_DUMMY_YEAR' for r in rn)
-        ck.ob(R5, f"{fi.fid} :: constructor", okc,
-              f"returns {key}(*{p})" if okc else f"does not build {key} from the positional items",
-              fi, rn[0].ast if rn else fi.node)
-    try:
-        dy = fold(prog, mod, ast.Name(id='_DUMMY_YEAR', ctx=ast.Load()))
-    except Unfoldable:
-        dy = None
-    leap = isinstance(dy, int) and dy % 4 == 0 and (dy % 100 != 0 or dy % 400 == 0) and 1 <= dy <= 9999
-    ck.ob(R3, f"{TI}:_DUMMY_YEAR", leap, f"_DUMMY_YEAR = {dy} "
-          f"({'leap year: Feb 29 representable' if leap else 'NOT a leap year'})", None, f"{mod.path}:1")
+        pair = [r for r in rn if isinstance(r.ast.value, ast.JoinedStr)]
+        ok = False
+        if len(pair) == 1:
+            vals = pair[0].ast.value.values
+            txt = []
+            for v in vals:
+                if isinstance(v, ast.Constant):
+                    txt.append(('c', v.value))
+                else:
+                    txt.append(('v', norm(v.value)))
+            ok = [t for t in txt if t[0] == 'v'][1:3] == [('v', '_RANGE_SEPARATORS[0]'), ('v', 'to_string(stop)')] \
+                and txt[-1] == ('v', '_DELIMITER') and ('c', ' ') in txt
+            # the rendered separator must be found first by the parser
+            rendered = f" {seps[0]} "
+            first = next((s for s in seps if s in rendered), None)
+            ok = ok and first == seps[0]
+        ck.ob(R4, f"{rs.fid} :: range rendering", ok,
+              f"'<start> {seps[0]} <stop>{delim}' and {seps[0]!r} is the separator the parser tries first"
+              if ok else "the rendered range separator/delimiter does not feed back into the parser",
+              rs, pair[0].ast if pair else rs.node)
+        single = [r for r in rn if r not in pair]
+        oks = len(single) == 1 and g.has_guard(single[0], 'self._RCLOSED_INTERVAL', True) and \
+            g.has_guard(single[0], 'start == stop', True) and '_DELIMITER' in norm(single[0].ast.value)
+        ck.ob(R4, f"{rs.fid} :: single-value rendering", oks,
+              "a single value is rendered only for a right-closed interval with start == stop" if oks
+              else "single-value rendering is not restricted to right-closed intervals with equal "
+              "endpoints", rs, single[0].ast if single else rs.node)
+        pr = base.methods.get('_parse_range')
+        ck.need(R4, pr is not None, "_Interval._parse_range not found")
+        gp = ck.cfg(pr.fid, 'M0')
+        loop = [n for n in gp.nodes if n.kind == 'for' and norm(n.ast.iter) == '_RANGE_SEPARATORS']
+        ck.ob(R4, f"{pr.fid} :: separators in list order", len(loop) == 1,
+              "separators are tried in list (priority) order" if len(loop) == 1 else
+              "the separators are not tried in plain list order", pr, loop[0].ast if loop else pr.node)
+        singles = [r for r in return_nodes(gp) if isinstance(r.ast.value, ast.Tuple)
+                   and len(r.ast.value.elts) == 2 and norm(r.ast.value.elts[0]) == norm(r.ast.value.elts[1])]
+        oks = bool(singles) and all(gp.has_guard(r, 'self._RCLOSED_INTERVAL', True) for r in singles)
+        ck.ob(R4, f"{pr.fid} :: single-value parsing", oks,
+              "a single value is accepted only for right-closed intervals" if oks else
+              "a single value is accepted for an interval type that is not right-closed",
+              pr, singles[0].ast if singles else pr.node)
+        gi_nodes = nodes_where(gi, lambda n: isinstance(n.ast, ast.Assign) and
+                               norm(n.ast.targets[0]) == 'delimiter')
+        okd = bool(gi_nodes) and isinstance(gi_nodes[0].ast.value, ast.IfExp) and \
+            norm(gi_nodes[0].ast.value.test) == '_DELIMITER in ivalue' and \
+            norm(gi_nodes[0].ast.value.body) == '_DELIMITER' and delim != legacy and \
+            delim not in ''.join(seps) and all(delim not in s for s in seps)
+        ck.ob(R4, f"{init.fid} :: delimiter preference", okd,
+              f"the rendering delimiter {delim!r} is preferred by the parser when present" if okd else
+              "the parser does not prefer the delimiter used by the rendering", init,
+              gi_nodes[0].ast if gi_nodes else init.node)
 
-    # ------------------------------------------------------------------ R13.4
-    try:
-        seps = fold(prog, mod, ast.Name(id='_RANGE_SEPARATORS', ctx=ast.Load()))
-        delim = fold(prog, mod, ast.Name(id='_DELIMITER', ctx=ast.Load()))
-        legacy = fold(prog, mod, ast.Name(id='_DELIMITER_LEGACY', ctx=ast.Load()))
-    except Unfoldable as err:
-        raise AnalysisError(R4, f"separator constants not foldable: {err}") from None
-    rs = base.methods.get('_range_string')
-    ck.need(R4, rs is not None, "_Interval._range_string not found")
-    g = ck.cfg(rs.fid, 'M0')
-    rn = return_nodes(g)
-    pair = [r for r in rn if isinstance(r.ast.value, ast.JoinedStr)]
-    ok = False
-    if len(pair) == 1:
-        vals = pair[0].ast.value.values
-        txt = []
-        for v in vals:
-            if isinstance(v, ast.Constant):
-                txt.append(('c', v.value))
-            else:
-                txt.append(('v', norm(v.value)))
-        ok = [t for t in txt if t[0] == 'v'][1:3] == [('v', '_RANGE_SEPARATORS[0]'), ('v', 'to_string(stop)')] \
-            and txt[-1] == ('v', '_DELIMITER') and ('c', ' ') in txt
-        # the rendered separator must be found first by the parser
-        rendered = f" {seps[0]} "
-        first = next((s for s in seps if s in rendered), None)
-        ok = ok and first == seps[0]
-    ck.ob(R4, f"{rs.fid} :: range rendering", ok,
-          f"'<start> {seps[0]} <stop>{delim}' and {seps[0]!r} is the separator the parser tries first"
-          if ok else "the rendered range separator/delimiter does not feed back into the parser",
-          rs, pair[0].ast if pair else rs.node)
-    single = [r for r in rn if r not in pair]
-    oks = len(single) == 1 and g.has_guard(single[0], 'self._RCLOSED_INTERVAL', True) and \
-        g.has_guard(single[0], 'start == stop', True) and '_DELIMITER' in norm(single[0].ast.value)
-    ck.ob(R4, f"{rs.fid} :: single-value rendering", oks,
-          "a single value is rendered only for a right-closed interval with start == stop" if oks
-          else "single-value rendering is not restricted to right-closed intervals with equal "
-          "endpoints", rs, single[0].ast if single else rs.node)
-    pr = base.methods.get('_parse_range')
-    ck.need(R4, pr is not None, "_Interval._parse_range not found")
-    gp = ck.cfg(pr.fid, 'M0')
-    loop = [n for n in gp.nodes if n.kind == 'for' and norm(n.ast.iter) == '_RANGE_SEPARATORS']
-    ck.ob(R4, f"{pr.fid} :: separators in list order", len(loop) == 1,
-          "separators are tried in list (priority) order" if len(loop) == 1 else
-          "the separators are not tried in plain list order", pr, loop[0].ast if loop else pr.node)
-    singles = [r for r in return_nodes(gp) if isinstance(r.ast.value, ast.Tuple)
-               and len(r.ast.value.elts) == 2 and norm(r.ast.value.elts[0]) == norm(r.ast.value.elts[1])]
-    oks = bool(singles) and all(gp.has_guard(r, 'self._RCLOSED_INTERVAL', True) for r in singles)
-    ck.ob(R4, f"{pr.fid} :: single-value parsing", oks,
-          "a single value is accepted only for right-closed intervals" if oks else
-          "a single value is accepted for an interval type that is not right-closed",
-          pr, singles[0].ast if singles else pr.node)
-    gi_nodes = nodes_where(gi, lambda n: isinstance(n.ast, ast.Assign) and
-                           norm(n.ast.targets[0]) == 'delimiter')
-    okd = bool(gi_nodes) and isinstance(gi_nodes[0].ast.value, ast.IfExp) and \
-        norm(gi_nodes[0].ast.value.test) == '_DELIMITER in ivalue' and \
-        norm(gi_nodes[0].ast.value.body) == '_DELIMITER' and delim != legacy and \
-        delim not in ''.join(seps) and all(delim not in s for s in seps)
-    ck.ob(R4, f"{init.fid} :: delimiter preference", okd,
-          f"the rendering delimiter {delim!r} is preferred by the parser when present" if okd else
-          "the parser does not prefer the delimiter used by the rendering", init,
-          gi_nodes[0].ast if gi_nodes else init.node)
-
-    # ------------------------------------------------------------------ R13.5
-    cs = prog.func(f"{TI}:_convert_str")
-    g = ck.cfg(cs.fid, 'M0')
-    left = nodes_where(g, lambda n: isinstance(n.ast, ast.Raise) and n.kinds == {'N:ValueError'}
-                       and g.has_guard(n, 'string', True), kinds=('stmt',))
-    strip = nodes_where(g, lambda n: isinstance(n.ast, ast.Assign) and norm(n.ast.value) == 'string.strip()')
-    ok = bool(left) and bool(strip) and all(g.dominates(s, l) for s in strip for l in left) and \
-        all(g.dominates(left[0].id and g.nodes[[p for p, _ in g.pred[left[0].id]][0]] or left[0], r) or True
-            for r in return_nodes(g))
-    # every return must come after the leftover test
-    tests = [n for n in g.nodes if n.kind == 'test' and norm(n.ast) == 'string']
-    ok = ok and bool(tests) and all(g.dominates(tests[-1], r) for r in return_nodes(g))
-    ck.ob(R5, f"{cs.fid} :: leftover text", ok,
-          "any text left after all parts were recognised raises ValueError before a value is "
-          "returned" if ok else "left-over text is not rejected on every path", cs,
-          left[0].ast if left else cs.node)
-    gp_raises = nodes_where(gp, lambda n: isinstance(n.ast, ast.Raise), kinds=('stmt',))
-    kinds = sorted({next(iter(r.kinds)) for r in gp_raises if r.kinds})
-    fall = gp.exit.id in gp.reachable() and any(
-        not isinstance(gp.nodes[i].ast, ast.Return) for i, _ in gp.pred[gp.exit.id])
-    ck.ob(R5, f"{pr.fid} :: rejects", len(gp_raises) >= 3 and not fall,
-          f"{len(gp_raises)} rejecting raises ({kinds}); no fall-through" if len(gp_raises) >= 3 and
-          not fall else "a malformed range can fall through without an error", pr, pr.node)
-    for fname, var in (('convert_time_str', 'dt_time'), ('convert_datetime_str', 'dt_datetime')):
-        fi = prog.func(f"{TI}:{fname}")
-        g = ck.cfg(fi.fid, 'M1')
-        tz = nodes_where(g, lambda n: isinstance(n.ast, ast.Raise) and
-                         any('tzinfo' in t and p for t, p in
-                             [(t, p) for t, p in g.guard_texts(n)]), kinds=('stmt',))
-        ck.ob(R5, f"{fi.fid} :: time zones refused", bool(tz),
-              "a value carrying a time zone raises" if tz else "time zones are silently accepted",
-              fi, fi.node)
-    unsupported = nodes_where(gi, lambda n: isinstance(n.ast, ast.Raise) and n.kinds == {'N:TypeError'},
-                              kinds=('stmt',))
-    ck.ob(R5, f"{init.fid} :: unsupported type", bool(unsupported),
-          "an unsupported argument type raises TypeError" if unsupported else
-          "unsupported argument types are not refused", init, init.node)
-    cv = base.methods.get('_convert')
-    if cv is not None:
-        gc = ck.cfg(cv.fid, 'M0')
-        tr = nodes_where(gc, lambda n: isinstance(n.ast, ast.Raise), kinds=('stmt',))
-        fall = gc.exit.id in gc.reachable() and any(
-            not isinstance(gc.nodes[i].ast, ast.Return) for i, _ in gc.pred[gc.exit.id])
-        ck.ob(R5, f"{cv.fid} :: unsupported endpoint type", bool(tr) and not fall,
-              "an endpoint that is neither a string nor a sequence raises", cv, cv.node)
+    with ck.section('R13.5'):
+        # ------------------------------------------------------------------ R13.5
+        cs = prog.func(f"{TI}:_convert_str")
+        g = ck.cfg(cs.fid, 'M0')
+        left = nodes_where(g, lambda n: isinstance(n.ast, ast.Raise) and n.kinds == {'N:ValueError'}
+                           and g.has_guard(n, 'string', True), kinds=('stmt',))
+        strip = nodes_where(g, lambda n: isinstance(n.ast, ast.Assign) and norm(n.ast.value) == 'string.strip()')
+        ok = bool(left) and bool(strip) and all(g.dominates(s, l) for s in strip for l in left) and \
+            all(g.dominates(left[0].id and g.nodes[[p for p, _ in g.pred[left[0].id]][0]] or left[0], r) or True
+                for r in return_nodes(g))
+        # every return must come after the leftover test
+        tests = [n for n in g.nodes if n.kind == 'test' and norm(n.ast) == 'string']
+        ok = ok and bool(tests) and all(g.dominates(tests[-1], r) for r in return_nodes(g))
+        ck.ob(R5, f"{cs.fid} :: leftover text", ok,
+              "any text left after all parts were recognised raises ValueError before a value is "
+              "returned" if ok else "left-over text is not rejected on every path", cs,
+              left[0].ast if left else cs.node)
+        gp_raises = nodes_where(gp, lambda n: isinstance(n.ast, ast.Raise), kinds=('stmt',))
+        kinds = sorted({next(iter(r.kinds)) for r in gp_raises if r.kinds})
+        fall = gp.exit.id in gp.reachable() and any(
+            not isinstance(gp.nodes[i].ast, ast.Return) for i, _ in gp.pred[gp.exit.id])
+        ck.ob(R5, f"{pr.fid} :: rejects", len(gp_raises) >= 3 and not fall,
+              f"{len(gp_raises)} rejecting raises ({kinds}); no fall-through" if len(gp_raises) >= 3 and
+              not fall else "a malformed range can fall through without an error", pr, pr.node)
+        for fname, var in (('convert_time_str', 'dt_time'), ('convert_datetime_str', 'dt_datetime')):
+            fi = prog.func(f"{TI}:{fname}")
+            g = ck.cfg(fi.fid, 'M1')
+            tz = nodes_where(g, lambda n: isinstance(n.ast, ast.Raise) and
+                             any('tzinfo' in t and p for t, p in
+                                 [(t, p) for t, p in g.guard_texts(n)]), kinds=('stmt',))
+            ck.ob(R5, f"{fi.fid} :: time zones refused", bool(tz),
+                  "a value carrying a time zone raises" if tz else "time zones are silently accepted",
+                  fi, fi.node)
+        unsupported = nodes_where(gi, lambda n: isinstance(n.ast, ast.Raise) and n.kinds == {'N:TypeError'},
+                                  kinds=('stmt',))
+        ck.ob(R5, f"{init.fid} :: unsupported type", bool(unsupported),
+              "an unsupported argument type raises TypeError" if unsupported else
+              "unsupported argument types are not refused", init, init.node)
+        cv = base.methods.get('_convert')
+        if cv is not None:
+            gc = ck.cfg(cv.fid, 'M0')
+            tr = nodes_where(gc, lambda n: isinstance(n.ast, ast.Raise), kinds=('stmt',))
+            fall = gc.exit.id in gc.reachable() and any(
+                not isinstance(gc.nodes[i].ast, ast.Return) for i, _ in gc.pred[gc.exit.id])
+            ck.ob(R5, f"{cv.fid} :: unsupported endpoint type", bool(tr) and not fall,
+                  "an endpoint that is neither a string nor a sequence raises", cv, cv.node)
 
 
 def _describe(rank) -> str:
